@@ -379,7 +379,7 @@ Proof.
 Qed.
 
 (* rolling back the block just processed restores the DPoS irreversibility
-   state exactly (repair ac1a41f0) *)
+   state exactly (repair ff7a11db) *)
 Lemma rollback_aux_stop h l d hs : desc hs h -> irr_rollback_aux h l d hs = mkIrr l d hs.
 Proof.
   destruct hs as [|[hh u] r]; simpl; auto.
